@@ -32,7 +32,7 @@ EXPLANATION = (
     'validity of every emitted framing, absence of internal errors, and conformance of code shared by both sides '
     '(a consistent two-sided change is invisible here; tables are C03).')
 
-CONFIGS = {'quick': ['float'], 'thorough': ['float', 'fixed']}
+CONFIGS = {'quick': ['float', 'fixed'], 'thorough': ['float', 'fixed']}
 
 ENC = {'ec_enc_icdf': ('icdf', 2, (3,)), 'ec_enc_icdf16': ('icdf16', 2, (3,)), 'ec_enc_bit_logp': ('bit_logp', None, (2,)), 'ec_enc_uint': ('uint', None, (2,)),
        'ec_enc_bits': ('bits', None, (2,)), 'ec_encode': ('code', None, (3,)), 'ec_encode_bin': ('code_bin', None, (3,)),
@@ -63,6 +63,7 @@ def setup(rep, tier):
     rep.minimum('R02.4', 15)
     rep.minimum('R02.5', 1)
     rep.minimum('R02.6', 1)
+    rep.minimum('R02.7', 60)
 
 
 def coder_calls(f):
@@ -609,3 +610,10 @@ def check(rep, prog, tier):
     r02_3(rep, prog)
     r02_4(rep, prog)
     r02_5(rep, prog)
+
+
+def finish(rep, tier, progs):
+    # R02.7: the float and fixed-point twins of the SILK encoder keep the same integer bookkeeping
+    if 'float' in progs and 'fixed' in progs:
+        from . import flpfix
+        flpfix.check(rep, 'R02.7', progs['float'], progs['fixed'])
